@@ -39,7 +39,7 @@ def classify_crash(wit, errtxt, rc):
 
 def plan(tier):
     if tier == "thorough":
-        return [{"variant": "plain", "workers": 16, "cases": 6000}]
+        return [{"variant": "plain", "workers": 16, "cases": 16000}]
     return [{"variant": "plain", "workers": 8, "cases": 450}]
 
 
@@ -109,14 +109,19 @@ def run(ctx):
             return "%s:unexpected-%s" % (op, type(exc).__name__)
         if symptom == "value" and op in ADD and pre:
             a, b = pre
+            pairs = set()
             for v in a:
                 for w in b:
                     if v is w:
                         sa, sb = a[v].split("/")[0], b[w].split("/")[0]
                         if sa != sb:
-                            pair = sorted([sa, sb], key=lambda s: ["scalar", "row", "matrix"].index(s))
-                            return "_addterm:%s-plus-%s-merge" % tuple(pair)
+                            pairs.add(tuple(sorted([sa, sb], key=lambda s: ["scalar", "row", "matrix"].index(s))))
+            for pr in (("scalar", "row"), ("scalar", "matrix"), ("row", "matrix")):
+                if pr in pairs:
+                    return "_addterm:%s-plus-%s-merge" % pr
             return "%s:value-mismatch" % op
+        if symptom == "value" and op in ("imul", "idiv") and isinstance(node.kids[1], S.K) and node.kids[1].s == 0.0:
+            return "imul:multiplication-by-zero-keeps-the-terms"
         return "%s:%s" % (op, symptom)
 
     def gen(rng):
